@@ -56,7 +56,7 @@ def uses_child(p):
     return p is not None and any(op[0] in ('disp', 'await_tmo') for op in P_PROGS[p])
 
 
-def scenarios(tier, *, timeouts=(None,), allow_raise=True, allow_tmo_await=True, allow_parallel=True, allow_forward=True, racing='thorough'):
+def scenarios(tier, *, timeouts=(None,), allow_raise=True, allow_tmo_await=True, allow_parallel=True, allow_forward=True, racing='thorough', main_mode='ff'):
     """yields (sid, scn, meta).  meta: dict(cb, par_a, par_b, fwd, p1, p2, c1, c2, tp)"""
     deep = tier == 'thorough'
     p1s = list(P_PROGS) if deep else QUICK_P1
@@ -113,13 +113,23 @@ def scenarios(tier, *, timeouts=(None,), allow_raise=True, allow_tmo_await=True,
                     hs.append(dict(bus='B', pat='G', name='fgB', prog=[('ret', 8)]))
             names = ['A', 'B'] if has_b else ['A']
             for b in names:
-                hs.append(dict(bus=b, pat='X', name='hx' + b, prog=[('ret', 0)]))
+                # the unrelated later event: its handler on A itself dispatches and awaits a child (an in-handler await AFTER whatever happened to P)
+                hs.append(dict(bus=b, pat='X', name='hx' + b, prog=[('disp', 'A', 'Q', 'await'), ('ret', 0)] if b == 'A' else [('ret', 0)]))
+            hs.append(dict(bus='A', pat='Q', name='hq', prog=[('ret', 9)]))
+            if fwd:
+                hs.append(dict(bus='B', pat='Q', name='fqB', prog=[('ret', 9)]))
             popt = {} if tp is None else {'timeout': None if tp == 'none' else tp}
-            main = [('disp', 'A', 'P', 'ff', popt), ('disp', 'A', 'X', 'ff')] + ([('disp', 'B', 'X2', 'ff')] if has_b else [])
+            main = [('disp', 'A', 'P', 'late' if main_mode == 'await_root' else 'ff', popt), ('disp', 'A', 'X', 'ff')] + ([('disp', 'B', 'X2', 'ff')] if has_b else [])
             actors = []
+            if main_mode == 'await_root':
+                # ordinary code awaits the root; an unrelated actor whose wait the explorer may never complete ("without further stimulus")
+                main.append(('await', 'P'))
+                actors = [[('pause', 'stall'), ('disp', 'A', 'X9', 'ff')]]
+            elif main_mode == 'idle':
+                main += [('pause',)] + [('idle', b) for b in names]
             if racing == 'always' or (racing == 'thorough' and deep):
                 hs.append(dict(bus=cb, pat='Y', name='hy', prog=[('ret', 0)]))
-                actors = [[('pause',), ('disp', cb, 'Y', 'ff')]]
+                actors = actors + [[('pause',), ('disp', cb, 'Y', 'ff')]]
             buses = {'A': dict(parallel=par_a)}
             if has_b:
                 buses['B'] = dict(parallel=par_b)
